@@ -32,7 +32,8 @@ THEOREMS = ['C14_squeeze_closed_form', 'C14_content_layout',
             'C14_split_surface_rendered', 'C14_split_data_rendered',
             'C14_blocks_layout', 'C14_blocks_layout_message',
             'C14_split_cell_void', 'C14_split_cell_material',
-            'C14_front_layout']
+            'C14_front_layout', 'C14_surface_card_layout',
+            'C14_surface_layout_invariant', 'C14_data_card_layout']
 TRUSTED = [
     'hand-written model coq/C14/Model.v (modelled, tied by execution only); '
     'regexes re-implemented as scanners: tied exhaustively on short strings '
